@@ -10,10 +10,15 @@ import os, re, shutil
 from vlib import Broken, write_ndjson, parallel
 
 
-def judge_cases(ctx, specname, module, events, tag, cfg=None, chunk=4000, par=6, timeout=900):
+def judge_cases(ctx, specname, module, events, tag, **kw):
     """returns the sorted list of indices (into events) TLC rejected; raises Broken when TLC did not consume everything"""
+    return sorted(judge_cases_detail(ctx, specname, module, events, tag, **kw))
+
+
+def judge_cases_detail(ctx, specname, module, events, tag, cfg=None, chunk=4000, par=6, timeout=900):
+    """{index into events: text TLC printed after the id in its REJECT tuple} for the rejected cases"""
     if not events:
-        return []
+        return {}
     sd = ctx.spec_dir(specname)
     chunks = [(i, events[i:i + chunk]) for i in range(0, len(events), chunk)]
 
@@ -29,11 +34,11 @@ def judge_cases(ctx, specname, module, events, tag, cfg=None, chunk=4000, par=6,
         if r.violated or r.error or hwm != len(evs):
             raise Broken("trace validation %s (%s, offset %d) did not consume the trace: hwm=%d of %d %r\n%s" % (
                 module, tag, off, hwm, len(evs), r, r.out[-2500:]))
-        rej = [int(m.group(1)) - 1 + off for m in re.finditer(r'<<"REJECT", (\d+), [^>]*>>', r.out)]
+        rej = {int(m.group(1)) - 1 + off: m.group(2) for m in re.finditer(r'<<"REJECT", (\d+), ([^>]*)>>', r.out)}
         shutil.rmtree(wd, ignore_errors=True)
         return rej
 
-    out = []
+    out = {}
     for r in parallel(one, chunks, n=par):
-        out += r
-    return sorted(set(out))
+        out.update(r)
+    return out
